@@ -1,12 +1,13 @@
 import sys, os, json
-sys.path.insert(0, '/work/part/verif')
+ROOT = os.path.dirname(os.path.dirname(os.path.abspath(__file__)))
+sys.path.insert(0, ROOT)
 import numpy as np, pandas as pd
 from harness import partlib as L
 def case(name, df, on, scheme, rgo, what, fixed):
     c = {"scheme": scheme, "on": on, "rgo": rgo, "n": len(df), "frame": L.frame_to_data(df), "confirm": False,
          "dist": {"scheme": scheme, "rgo_kind": "none" if rgo is None else ("int" if isinstance(rgo, int) else "list"), "n_on": len(on), "kinds": ["corpus"] * len(on)},
          "what": what, "fixed_by": fixed}
-    json.dump(c, open('/work/part/verif/corpus/C08/%s.json' % name, 'w'), indent=1)
+    json.dump(c, open(ROOT + '/corpus/C08/%s.json' % name, 'w'), indent=1)
 base = lambda n: {"id": np.arange(n, dtype="int64"), "p": np.array([0.5] * n), "q": pd.Series(["u"] * n, dtype=object)}
 case("drill-mixed-text", pd.DataFrame({**base(4), "k": pd.Series(["a", "2", "a", "2"], dtype=object)}), ["k"], "drill", None,
      "drill level mixing plain text and number-looking text: ValueError '2 is not in list' on read", "2ae7489")
@@ -25,7 +26,7 @@ case("float32-widening", pd.DataFrame({**base(3), "k": np.array([0.1, 1e10, 0.1]
      "float32 keys are handed over widened: directory text is the repr of the exact double (false alarm of the first oracle)", "harness")
 # C14
 def c14(name, c):
-    json.dump(c, open('/work/part/verif/corpus/C14/%s.json' % name, 'w'), indent=1)
+    json.dump(c, open(ROOT + '/corpus/C14/%s.json' % name, 'w'), indent=1)
 f = lambda d, name, n, off, **kw: {"dir": d, "name": name, "n": n, "off": off, "codec": None, "rgo": None, "cats": None, **kw}
 c14("instances-of-datasets", {"shape": "subdatasets", "files": [f(["sub0"], "", 3, 0), f(["sub1"], "", 2, 4)], "root_mode": "inferred", "cat_mode": "none",
                               "verify": False, "bad_schema": None, "what": "list of ParquetFile instances of hive sub-datasets re-pathed below <dir>/_metadata", "fixed_by": "3306fff"})
@@ -41,4 +42,28 @@ case("categorical-typed-labels", pd.DataFrame({**base(4), "c": pd.Categorical([1
 case("percent-sequences", pd.DataFrame({**base(6), "k": pd.Series(["a%2Fb", "A%42", "AB", "%41", "A", "x%25"], dtype=object)}), ["k"], "hive", 3,
      "text keys with percent sequences must not be decoded (seeded C08-4)", "regression guard")
 case("cat-text-labels-next-to-int8", pd.DataFrame({**base(4), "c": pd.Categorical(["1", "2", "1", "7"]), "i": np.array([1, 2, 7, 1], dtype="int8")}), ["c", "i"], "hive", None,
-     "text labels '1','2' of a categorical (int8 codes) next to an int8 column with the same texts (seeded C08-3)", "regression guard")
+     "text labels '1','2' of a categorical (int8 codes) next to an int8 column with the same texts: a memo keyed by (text, numpy_type) mixes them (seeded C08-3)", "regression guard")
+
+# wave 3 additions
+def case_ix(name, df, on, scheme, rgo, index, write_index, what, fixed):
+    case(name, df, on, scheme, rgo, what, fixed)
+    pth = ROOT + '/corpus/C08/%s.json' % name
+    c = json.load(open(pth))
+    c["index"], c["write_index"] = index, write_index
+    c["dist"].update(index=index["kind"], write_index=str(write_index))
+    json.dump(c, open(pth, 'w'), indent=1)
+case_ix("duplicate-row-labels", pd.DataFrame({**base(12), "k": np.array([0, 1, 2] * 4, dtype="int64")}), ["k"], "hive", [0, 2, 9],
+        {"kind": "concat", "values": list(range(6)) + list(range(6)), "names": [None]}, False,
+        "frame from pd.concat without ignore_index (row labels 0..5, 0..5), index not stored: rows must be placed by POSITION (seeded C08-5 selected "
+        "each group's rows by label)", "regression guard")
+case_ix("multiindex-repeated-tuples", pd.DataFrame({**base(6), "k": pd.Series(["a", "b", "a", "b", "a", "a"], dtype=object)}), ["k"], "drill", 4,
+        {"kind": "multi", "values": [["x", 0], ["x", 0], ["y", 1], ["x", 0], ["y", 1], ["y", 1]], "names": ["L0", "L1"]}, True,
+        "MultiIndex with repeated tuples, stored", "regression guard")
+case("one-key-and-nulls", pd.DataFrame({**base(7), "k": pd.Series([None, "a", None, "a", None, None, None], dtype=object)}), ["k"], "hive", 2,
+     "ONE distinct key + NULL keys in a row group, row groups of NULL keys only (C08_single_key_with_nulls, C08_all_null_chunk_writes_nothing)", "regression guard")
+case("unicode-digit-keys", pd.DataFrame({**base(5), "k": pd.Series(["\u0663", "3", "\uff11\uff12", "12", "\u00a07"], dtype=object)}), ["k"], "hive", None,
+     "text keys that int() reads as numbers (ARABIC-INDIC / FULLWIDTH digits, NO-BREAK SPACE): they are text and distinct from '3', '12'", "regression guard")
+c14("underscore-and-dot-names", {"shape": "drill", "files": [f(["a"], "f0.parquet", 2, 0), f(["_na"], "f1.parquet", 3, 3), f([".hid"], "_f2.parquet", 1, 7)],
+                                 "root_mode": "inferred", "cat_mode": "none", "verify": False, "bad_schema": None, "dup": None, "relative": False, "junk": True,
+                                 "dir_slash": False, "colperm": None,
+                                 "what": "directory values and file names starting with '_' or '.' are data (seeded C14-6 dropped them from the listing)", "fixed_by": "regression guard"})
